@@ -168,11 +168,13 @@ fn enumerate(thorough: bool) -> Vec<Case> {
             }
         }
         // helpers on two members at once (every pair of positions, every pair of helpers)
-        if thorough {
+        {
+            // quick: the two most common helpers; thorough: every helper
+            let hmax = if thorough { HELPERS.len() } else { 3 };
             for p in 0..n {
                 for q in (p + 1)..n {
-                    for h1 in 1..HELPERS.len() {
-                        for h2 in 1..HELPERS.len() {
+                    for h1 in 1..hmax {
+                        for h2 in 1..hmax {
                             let mut decos = vec![Deco::default(); n];
                             decos[p] = Deco { helper: h1, before: 3, after: 0 };
                             decos[q] = Deco { helper: h2, before: 0, after: 1 };
